@@ -336,6 +336,43 @@ def _ord(fn, node):
     return 0
 
 
+def cursor_wrap(ctx):
+    """After the item index is advanced, the end-of-group test must run:
+    otherwise the index is left past the end of a DATA group and the next
+    READ reports `Out of data` although more DATA follows."""
+    from ..cfg import build_cfg, repo_noreturn
+    repo = ctx.repo
+    rule = 'C15.cursor-advance-is-followed-by-the-end-of-group-test'
+    ctx.rule(rule, 'in DataDevice._exec_read every path from an increment '
+             'of the item index to the end of the handler passes through '
+             'the test that compares the index with the length of the '
+             'current group (and moves to the next group)')
+    f = repo.func('qvm.machine', 'DataDevice._exec_read')
+    cfg = build_cfg(f.node, repo_noreturn)
+    incs = [n for n in cfg.nodes if n.kind == 'stmt' and
+            isinstance(n.ast, ast.AugAssign) and
+            isinstance(n.ast.op, ast.Add) and
+            'data_idx' in unparse(n.ast.target)]
+    tests = [n for n in cfg.nodes if n.kind == 'test' and
+             'data_idx' in unparse(n.ast.test) and
+             'len(' in unparse(n.ast.test)]
+    if not incs:
+        raise AnalysisError('anchor vanished: item index increment in '
+                            '_exec_read')
+    for k, a in enumerate(incs):
+        construct = f'{f.file}:DataDevice._exec_read:advance[{k}]'
+        ok = bool(tests) and cfg.must_pass(cfg.exit, lambda x: x in tests,
+                                           start=a)
+        ctx.instance(rule, construct, sample={'followed_by_test': ok})
+        if not ok:
+            ctx.finding(rule, construct,
+                        'the item index is advanced on a path that returns '
+                        'without the end-of-group test: after reading the '
+                        'last item of a group that way the next READ fails '
+                        'with Out of data although a later DATA group '
+                        'exists', f.file, a.line)
+
+
 def quoted_regexes(ctx):
     """Inside quotes a DATA item is taken verbatim.  The grammar has one
     regex for a closed quoted item and one for a quoted item whose closing
@@ -418,6 +455,7 @@ def run(ctx):
     read_cursor(ctx, r)
     source_order(ctx)
     quoted_verbatim(ctx)
+    cursor_wrap(ctx)
     quoted_regexes(ctx)
     return ('Protocol agreement between gen_read_stmt/gen_restore_stmt and '
             'DataDevice (type ids, operand types, emission order), '
